@@ -358,6 +358,64 @@ impl<'a> Gen<'a> {
     }
 }
 
+/// Files built around get-list responses with *minimal* entries (8 bytes: `77 01 01 01 01 01 01 01`, or 9-10 byte
+/// variants), where the declared list length equals, exceeds or undercuts the number of entries present; message
+/// checksums are correct. Returns (bytes, declared == present).
+pub fn crafted_lists() -> Vec<(Vec<u8>, bool)> {
+    let mut out = vec![];
+    let entries: [&[u8]; 4] = [
+        &[0x77, 0x01, 0x01, 0x01, 0x01, 0x01, 0x01, 0x01],
+        &[0x77, 0x01, 0x01, 0x01, 0x01, 0x01, 0x62, 0x2a, 0x01],
+        &[0x77, 0x02, 0xab, 0x01, 0x01, 0x01, 0x01, 0x01, 0x01],
+        &[0x77, 0x02, 0xab, 0x01, 0x01, 0x01, 0x01, 0x42, 0x01, 0x01],
+    ];
+    let finish = |msg: &mut Vec<u8>| {
+        let d = crc16(msg);
+        msg.extend([0x63, d as u8, (d >> 8) as u8, 0x00]);
+    };
+    let close: Vec<u8> = {
+        let mut m = hex("76 02 0c 62 00 62 00 72 63 02 01 71 01");
+        finish(&mut m);
+        m
+    };
+    let open: Vec<u8> = {
+        let mut m = hex("76 02 0a 62 00 62 00 72 63 01 01 76 01 01 02 31 02 32 01 01");
+        finish(&mut m);
+        m
+    };
+    for present in 0..=17usize {
+        for ek in 0..entries.len() {
+            for declared in [present, present + 1, present + 7, present.saturating_sub(1), 15, 16, 255] {
+                if ek > 0 && !(declared == present || declared == present + 1) {
+                    continue;
+                }
+                let mut m = hex("76 02 0b 62 00 62 00 72 63 07 01 77 01 02 53 01 01");
+                m.extend(super_tlf(7, declared as u64));
+                for _ in 0..present {
+                    m.extend(entries[ek]);
+                }
+                m.extend([0x01, 0x01]);
+                finish(&mut m);
+                for layout in 0..3 {
+                    let mut f = vec![];
+                    if layout == 2 {
+                        f.extend(&open);
+                    }
+                    f.extend(&m);
+                    if layout >= 1 {
+                        f.extend(&close);
+                    }
+                    out.push((f, declared == present));
+                }
+            }
+        }
+    }
+    out
+}
+fn super_tlf(ty: u8, len: u64) -> Vec<u8> {
+    tlf(ty, len, 0, true)
+}
+
 // ------------------------------------------------------------------------------------------------
 // mutation families
 // ------------------------------------------------------------------------------------------------
@@ -510,6 +568,38 @@ pub fn parser_inputs(tier: &str, rng: &mut Rng, f: &mut dyn FnMut(&[u8], u8)) {
                     q.splice(e.pos..e.pos + e.tlf_len, t);
                     f(&q, 4);
                 }
+            }
+        }
+    }
+    // crafted lists of minimal entries with correct / wrong declared lengths
+    for (x, valid) in crafted_lists() {
+        f(&x, if valid { 0 } else { 1 });
+        for t in [x.len() - 1, x.len() - 4] {
+            f(&x[..t], 3);
+        }
+    }
+    // very long type-length fields (255 .. 300 TLF bytes, zero length nibbles) in front of every element of a few files
+    for p in bases.iter().take(if thorough { 12 } else { 3 }) {
+        for e in all_elems(p) {
+            if e.ty == 0xff || e.tlf_len != 1 {
+                continue;
+            }
+            for n in [17usize, 254, 255, 256, 257, 300] {
+                // same type, same declared value (for non-lists the value includes the TLF size, so it is re-based)
+                let b0 = p[e.pos];
+                let ty = (b0 >> 4) & 7;
+                let val: u64 = if ty == 7 { (b0 & 15) as u64 } else { (b0 & 15) as u64 - 1 + n as u64 };
+                let mut t = vec![0x80 | (ty << 4)];
+                let nn = n - 1;
+                for k in 0..nn {
+                    let shift = 4 * (nn - 1 - k);
+                    let nib = if shift >= 64 { 0 } else { ((val >> shift) & 15) as u8 };
+                    t.push(if k + 1 < nn { 0x80 } else { 0 } | nib);
+                }
+                let mut q = p.clone();
+                q.splice(e.pos..e.pos + 1, t);
+                fix_crcs(&mut q);
+                f(&q, 4);
             }
         }
     }
